@@ -1,0 +1,180 @@
+//go:build verif
+
+package tls
+
+// Verification hooks for property C26 (TLS key derivation matches the RFC
+// definitions): thin exported wrappers around the unexported PRF and key
+// schedule functions. Built only with -tags verif.
+
+import (
+	"crypto"
+	"crypto/md5"
+	"crypto/sha1"
+	"crypto/sha256"
+	"crypto/sha512"
+	"hash"
+)
+
+func zvHashByName(name string) func() hash.Hash {
+	switch name {
+	case "md5":
+		return md5.New
+	case "sha1":
+		return sha1.New
+	case "sha256":
+		return sha256.New
+	case "sha384":
+		return sha512.New384
+	case "sha512":
+		return sha512.New
+	}
+	return nil
+}
+
+// ZVPHash runs pHash into a fresh n-byte buffer.
+func ZVPHash(n int, secret, seed []byte, hashName string) []byte {
+	out := make([]byte, n)
+	pHash(out, secret, seed, zvHashByName(hashName))
+	return out
+}
+
+func ZVSplitPreMasterSecret(secret []byte) (s1, s2 []byte) { return splitPreMasterSecret(secret) }
+
+func ZVPrf10(n int, secret, label, seed []byte) []byte {
+	out := make([]byte, n)
+	prf10(out, secret, label, seed)
+	return out
+}
+
+func ZVPrf12(hashName string, n int, secret, label, seed []byte) []byte {
+	out := make([]byte, n)
+	prf12(zvHashByName(hashName))(out, secret, label, seed)
+	return out
+}
+
+// ZVPrfForVersion runs the PRF selected by prfAndHashForVersion and reports the selected hash.
+func ZVPrfForVersion(version, suiteID uint16, n int, secret, label, seed []byte) ([]byte, crypto.Hash) {
+	out := make([]byte, n)
+	prf, h := prfAndHashForVersion(version, cipherSuiteByID(suiteID))
+	prf(out, secret, label, seed)
+	return out, h
+}
+
+// ZVSuite is one row of the TLS <= 1.2 suite table as far as key derivation reads it.
+type ZVSuite struct {
+	ID                    uint16
+	KeyLen, MacLen, IVLen int
+	SHA384                bool
+}
+
+func ZVSuites() []ZVSuite {
+	var r []ZVSuite
+	for _, s := range implementedCipherSuites {
+		r = append(r, ZVSuite{s.id, s.keyLen, s.macLen, s.ivLen, s.flags&suiteSHA384 != 0})
+	}
+	return r
+}
+
+// ZVSuite13 is one row of the TLS 1.3 suite table.
+type ZVSuite13 struct {
+	ID     uint16
+	KeyLen int
+	Hash   crypto.Hash
+}
+
+func ZVSuites13() []ZVSuite13 {
+	var r []ZVSuite13
+	for _, s := range cipherSuitesTLS13 {
+		r = append(r, ZVSuite13{s.id, s.keyLen, s.hash})
+	}
+	return r
+}
+
+func ZVMasterFromPreMasterSecret(version, suiteID uint16, preMasterSecret, clientRandom, serverRandom []byte) []byte {
+	return masterFromPreMasterSecret(version, cipherSuiteByID(suiteID), preMasterSecret, clientRandom, serverRandom)
+}
+
+func ZVKeysFromMasterSecret(version, suiteID uint16, masterSecret, clientRandom, serverRandom []byte, macLen, keyLen, ivLen int) [6][]byte {
+	a, b, c, d, e, f := keysFromMasterSecret(version, cipherSuiteByID(suiteID), masterSecret, clientRandom, serverRandom, macLen, keyLen, ivLen)
+	return [6][]byte{a, b, c, d, e, f}
+}
+
+// ZVFinished feeds msgs to a fresh finishedHash and returns Sum, clientSum and serverSum.
+func ZVFinished(version, suiteID uint16, masterSecret []byte, msgs [][]byte) (sum, client, server []byte) {
+	h := newFinishedHash(version, cipherSuiteByID(suiteID))
+	for _, m := range msgs {
+		h.Write(m)
+	}
+	return h.Sum(), h.clientSum(masterSecret), h.serverSum(masterSecret)
+}
+
+func ZVEkm(version, suiteID uint16, masterSecret, clientRandom, serverRandom []byte, label string, context []byte, length int) ([]byte, error) {
+	return ekmFromMasterSecret(version, cipherSuiteByID(suiteID), masterSecret, clientRandom, serverRandom)(label, context, length)
+}
+
+func zvTranscript(s *cipherSuiteTLS13, msgs []byte, isNil bool) hash.Hash {
+	if isNil {
+		return nil
+	}
+	h := s.hash.New()
+	h.Write(msgs)
+	return h
+}
+
+func ZVExpandLabel(suiteID uint16, secret []byte, label string, context []byte, length int) []byte {
+	return cipherSuiteTLS13ByID(suiteID).expandLabel(secret, label, context, length)
+}
+
+func ZVDeriveSecret(suiteID uint16, secret []byte, label string, transcript []byte, nilTranscript bool) []byte {
+	s := cipherSuiteTLS13ByID(suiteID)
+	return s.deriveSecret(secret, label, zvTranscript(s, transcript, nilTranscript))
+}
+
+func ZVExtract(suiteID uint16, newSecret, currentSecret []byte) []byte {
+	return cipherSuiteTLS13ByID(suiteID).extract(newSecret, currentSecret)
+}
+
+func ZVNextTrafficSecret(suiteID uint16, secret []byte) []byte {
+	return cipherSuiteTLS13ByID(suiteID).nextTrafficSecret(secret)
+}
+
+func ZVTrafficKey(suiteID uint16, secret []byte) (key, iv []byte) {
+	return cipherSuiteTLS13ByID(suiteID).trafficKey(secret)
+}
+
+func ZVFinishedHash13(suiteID uint16, baseKey, transcript []byte) []byte {
+	s := cipherSuiteTLS13ByID(suiteID)
+	return s.finishedHash(baseKey, zvTranscript(s, transcript, false))
+}
+
+func ZVExportKeyingMaterial13(suiteID uint16, masterSecret, transcript []byte, label string, context []byte, length int) ([]byte, error) {
+	s := cipherSuiteTLS13ByID(suiteID)
+	return s.exportKeyingMaterial(masterSecret, zvTranscript(s, transcript, false))(label, context, length)
+}
+
+// ZVLabels dumps the label constants of prf.go and key_schedule.go.
+func ZVLabels() map[string]string {
+	return map[string]string{
+		"masterSecretLabel":             string(masterSecretLabel),
+		"keyExpansionLabel":             string(keyExpansionLabel),
+		"clientFinishedLabel":           string(clientFinishedLabel),
+		"serverFinishedLabel":           string(serverFinishedLabel),
+		"resumptionBinderLabel":         resumptionBinderLabel,
+		"clientHandshakeTrafficLabel":   clientHandshakeTrafficLabel,
+		"serverHandshakeTrafficLabel":   serverHandshakeTrafficLabel,
+		"clientApplicationTrafficLabel": clientApplicationTrafficLabel,
+		"serverApplicationTrafficLabel": serverApplicationTrafficLabel,
+		"exporterLabel":                 exporterLabel,
+		"resumptionLabel":               resumptionLabel,
+		"trafficUpdateLabel":            trafficUpdateLabel,
+	}
+}
+
+// ZVLengths dumps the length constants read by the key derivation code.
+func ZVLengths() map[string]int {
+	return map[string]int{
+		"masterSecretLength":   masterSecretLength,
+		"finishedVerifyLength": finishedVerifyLength,
+		"aeadNonceLength":      aeadNonceLength,
+	}
+}
